@@ -24,7 +24,7 @@ import (
 func init() {
 	core.Register(&core.Simple{
 		Id: "C17", Lvl: "exploration", Quick: 320, Thorough: 6000, PerBatch: 80, Width: 40, Timeout: 1500,
-		RuleText: "each case: an administrator disconnects a target at a random IPv4 address with option none / temporary / permanent ban (optionally after an earlier expired or temporary entry for the same address; or the case injects a ban entry whose expiry lies 2 s .. 24 h in the past or 1 min .. 24 h in the future); oracles: reply, target connection closed, every other client receives a user-left notice, ban entry in memory and in Banlist.yaml with expiry bracketed by the harness clock readings + 30 min (no slack), then reconnect attempts from the same address (other port), near-miss addresses (a.b.c.d0, 1a.b.c.d, neighbour host) and an unrelated address, before and after a restart on the same ban file: a banned address must get handshake reply + one ban notice + close with its login transaction unprocessed, all others must log in. a stress batch has 4-8 administrators ban different users at the same moment and then restarts: every address must still be banned. distinct = (ban option or injected expiry class, restart phase, address class); non-trivial = every case",
+		RuleText: "each case: an administrator disconnects a target (an ordinary named user, a user who agreed with an empty name, or a 1.5+ client between login and agreed; for the last no user-left notice is demanded) at a random IPv4 address with option none / temporary / permanent ban (optionally after an earlier expired or temporary entry for the same address; or the case injects a ban entry whose expiry lies 2 s .. 24 h in the past or 1 min .. 24 h in the future); oracles: reply, target connection closed, every other client receives a user-left notice, ban entry in memory and in Banlist.yaml with expiry bracketed by the harness clock readings + 30 min (no slack), then reconnect attempts from the same address (other port), near-miss addresses (a.b.c.d0, 1a.b.c.d, neighbour host) and an unrelated address, before and after a restart on the same ban file: a banned address must get handshake reply + one ban notice + close with its login transaction unprocessed, all others must log in. a stress batch has 4-8 administrators ban different users at the same moment and then restarts: every address must still be banned. distinct = (ban option or injected expiry class, restart phase, address class); non-trivial = every case",
 		Case:     runCase,
 		Extra: func(tier string, seed int64) []core.Batch {
 			n := 8
@@ -267,11 +267,30 @@ func runCase(c *core.Case) {
 	banFile := filepath.Join(srv.ConfigDir, "Banlist.yaml")
 	switch mode {
 	case "kick", "kick-temp", "kick-perm":
-		tgt, err := refclient.LoginAs(srv, fmt.Sprintf("%s:%d", ip, 1024+r.Intn(60000)), "target", "", "Target")
+		// the target is an ordinary named user, a user who agreed with an empty name, or a 1.5+ client that has logged
+		// in but not yet answered the agreement
+		flavour := core.Pick(r, []string{"named", "named", "named", "empty-name", "before-agreed"})
+		desc += "/" + flavour
+		var tgt *refclient.Client
+		if flavour == "named" {
+			tgt, err = refclient.LoginAs(srv, fmt.Sprintf("%s:%d", ip, 1024+r.Intn(60000)), "target", "", "Target")
+		} else {
+			tgt = refclient.Connect(srv, fmt.Sprintf("%s:%d", ip, 1024+r.Intn(60000)))
+			if err = tgt.Handshake(); err == nil {
+				if rep, ok := tgt.Login(refclient.LoginOpts{Login: "target", Version: 190}); !ok || rep.Err != 0 {
+					err = fmt.Errorf("login reply %v", rep)
+				} else if flavour == "empty-name" {
+					if _, ok := tgt.Agreed("", 1, 0, ""); !ok {
+						err = fmt.Errorf("no reply to agreed")
+					}
+				}
+			}
+		}
 		if err != nil {
 			c.Unsure("login: %v", err)
 			return
 		}
+		c.Count("target_"+flavour, 1)
 		if prior != "" {
 			// recorded once the target is connected (an active entry would otherwise keep it out)
 			srv.S.BanList.Add(ip, &priorUntil)
@@ -283,6 +302,19 @@ func runCase(c *core.Case) {
 			if string(u.Name) == "Target" {
 				tid = u.ID
 			}
+		}
+		if flavour != "named" {
+			// the id of a user without a name is taken from the server's registry (a real administrator sees the entry
+			// with the empty name in the list, or counts ids)
+			for _, cc := range srv.S.ClientMgr.List() {
+				if strings.HasPrefix(cc.RemoteAddr, ip+":") {
+					tid = uint16(cc.ID[0])<<8 | uint16(cc.ID[1])
+				}
+			}
+		}
+		if tid == 0 {
+			c.Unsure("target id not found")
+			return
 		}
 		srv.Quiesce(refclient.Watchdog)
 		adm.Drain()
@@ -322,7 +354,7 @@ func runCase(c *core.Case) {
 					n++
 				}
 			}
-			if n < 1 {
+			if n < 1 && flavour != "before-agreed" {
 				c.Fail("C17/disconnect/others-not-told", "%s: another client received no user-left notice for the disconnected user", mode)
 			}
 			if n > 1 {
